@@ -122,30 +122,79 @@ Definition find_ok (F : nat) (guard : bool) (r : rx) : Prop :=
   2 <= r_ncap r /\
   forall data off res off', off <= length data -> find F guard r data off = (res, off') -> find_agrees F r data off res off'.
 
+(* the precondition of an element with variables against one of its substituted expressions: where the precondition
+   finds nothing the expression finds nothing, and moving the offset to where the precondition's find stopped loses no
+   match of the expression (and does not turn a non-empty match into an empty one) *)
+Definition pre_ok (F : nat) (guard : bool) (pre ex : rx) : Prop :=
+  (forall buffer, plain F pre buffer = None -> plain F ex buffer = None) /\
+  (forall data off m off', off <= length data -> find F guard pre data off = (Some m, off') ->
+     plain F ex (skipn off data) = option_map (shift (off' - off)) (plain F ex (skipn off' data)) /\
+     (off < off' -> forall m', plain F ex (skipn off' data) = Some m' -> match_end m' <> 0)).
+
+Definition elem_ok (F : nat) (guard : bool) (tbl : list rx) (e : elem) : Prop :=
+  match e_ref e with
+  | EFixed k => forall r, nth_error tbl k = Some r -> find_ok F guard r
+  | ESubst pre uses table =>
+      (forall rp, nth_error tbl pre = Some rp -> find_ok F guard rp) /\
+      (forall vs i r, table_find vs table = Some i -> nth_error tbl i = Some r -> find_ok F guard r) /\
+      (forall rp vs i r, nth_error tbl pre = Some rp -> table_find vs table = Some i -> nth_error tbl i = Some r ->
+                         pre_ok F guard rp r)
+  end.
+
 Definition tbl_ok (F : nat) (guard : bool) (tbl : list rx) (c : cond) : Prop :=
-  forall e, In e (c_elems c) -> exists r, nth_error tbl (e_rx e) = Some r /\ find_ok F guard r.
+  forall e, In e (c_elems c) -> elem_ok F guard tbl e.
+
+Definition mu (p : progress) : nat := 2 * p_n p + (if p_pre p then 1 else 0).
+
+(* captures do not depend on where the buffer was cut in front of the match *)
+Lemma cap_value_shift : forall data off k m i, cap_value (skipn off data) (shift k m) i = cap_value (skipn (off + k) data) m i.
+Proof.
+  intros. unfold cap_value. rewrite !nth_error_shift.
+  destruct (nth_error m (2 * i)) as [[a|]|]; cbn [option_map]; auto.
+  destruct (nth_error m (2 * i + 1)) as [[b|]|]; cbn [option_map]; auto.
+  rewrite !skipn_skipn. replace (k + b - (k + a)) with (b - a) by lia.
+  replace (k + a + off) with (a + (off + k)) by lia. reflexivity.
+Qed.
+
+Lemma bind_names_shift : forall names i data off k m vars,
+  bind_names names i (skipn off data) (shift k m) vars = bind_names names i (skipn (off + k) data) m vars.
+Proof.
+  induction names as [|[nm|] names IH]; intros; simpl; auto.
+  destruct (var_get nm vars); auto. rewrite cap_value_shift. apply IH.
+Qed.
+
+Lemma bind_shift : forall r data off k m vars, bind r (skipn off data) (shift k m) vars = bind r (skipn (off + k) data) m vars.
+Proof. intros. unfold bind. apply bind_names_shift. Qed.
 
 Section OneCondition.
   Variables (F : nat) (guard : bool) (tbl : list rx) (s : source) (c : cond).
   Hypothesis Hok : tbl_ok F guard tbl c.
 
-  Definition total : nat := seq_spec F tbl s (c_elems c) 0 0.
+  Definition total : nat := seq_spec F tbl s (c_elems c) 0 0 [].
   Definition adv (p : progress) : progress := attempt F guard tbl s c (p_n p) p.
 
-  (* progress and specification walk the same way *)
-  Definition Inv (p : progress) : Prop :=
-    p_n p <= length (c_elems c) /\ p_bad p = false /\
+  Definition Bnd (p : progress) : Prop :=
+    p_n p <= length (c_elems c) /\ (p_pre p = true -> p_n p < length (c_elems c)).
+  Definition Core (p : progress) : Prop :=
     p_offc p <= length (dir_data false s) /\ p_offs p <= length (dir_data true s) /\
-    p_n p + seq_spec F tbl s (skipn (p_n p) (c_elems c)) (p_offc p) (p_offs p) = total.
+    p_n p + seq_spec F tbl s (skipn (p_n p) (c_elems c)) (p_offc p) (p_offs p) (p_vars p) = total.
+  (* progress and specification walk the same way, as long as the filter has not returned an error *)
+  Definition Inv (p : progress) : Prop := Bnd p /\ (p_err p = 0 -> Core p).
 
   Lemma Inv0 : Inv progress0.
-  Proof. unfold Inv, progress0, total; simpl. repeat split; lia. Qed.
+  Proof. unfold Inv, Bnd, Core, progress0, total; simpl. repeat split; try lia; intros; try discriminate. Qed.
 
   Lemma attempt_cases : forall k p, attempt F guard tbl s c k p = p \/ (k = p_n p /\ attempt F guard tbl s c k p = adv p).
   Proof.
     intros k p. unfold adv. destruct (Nat.eq_dec k (p_n p)) as [E|E].
     - right. subst. auto.
     - left. unfold attempt. destruct (Nat.eqb_spec k (p_n p)); [contradiction | reflexivity].
+  Qed.
+
+  Lemma err_attempt : forall k p, p_err p <> 0 -> attempt F guard tbl s c k p = p.
+  Proof.
+    intros k p H. unfold attempt. destruct (Nat.eqb k (p_n p)); simpl; auto.
+    destruct (Nat.eqb_spec (p_err p) 0); [contradiction | reflexivity].
   Qed.
 
   Lemma skipn_nth_error : forall A (l : list A) k x, nth_error l k = Some x -> skipn k l = x :: skipn (S k) l.
@@ -155,10 +204,6 @@ Section OneCondition.
     - apply IHl. exact H.
   Qed.
 
-  Lemma p_off_range : forall d p, p_offc p <= length (dir_data false s) -> p_offs p <= length (dir_data true s) ->
-    p_off d p <= length (dir_data d s).
-  Proof. intros d p A B. destruct d; simpl; auto. Qed.
-
   Lemma match_end_shift : forall k m e, nth_error (shift k m) 1 = Some (Some e) ->
     exists x, nth_error m 1 = Some (Some x) /\ e = k + x /\ match_end m = x /\ match_end (shift k m) = e.
   Proof.
@@ -167,158 +212,394 @@ Section OneCondition.
     inversion H; subst. exists x. unfold match_end. rewrite E, H'. auto.
   Qed.
 
-  Definition after_match (e : elem) (off' : nat) (m : caps) (p : progress) : progress :=
-    let d := e_dir e in
-    let p0 := set_off d off' p in
-    let p1 := mkProgress (p_offc p0) (p_offs p0) (S (p_n p0)) (p_bad p0) in
-    if Nat.eqb (p_n p1) (length (c_elems c)) && c_inv c then p1
-    else if Nat.eqb (match_end m) 0 then p1
-    else let p2 := set_off d (off' + match_end m) p1 in
-         match boundary s d (p_off d p2) with
-         | Some o => set_off (negb d) o p2
-         | None => mkProgress (p_offc p2) (p_offs p2) (p_n p2) true
-         end.
+  (* the specification seen from the offset of the direction of the first element *)
+  Definition spec_from (e : elem) (rest : list elem) (off other : nat) (vars : list (nat * value)) : nat :=
+    if e_dir e then seq_spec F tbl s (e :: rest) other off vars else seq_spec F tbl s (e :: rest) off other vars.
 
-  Lemma adv_unfold : forall p, adv p =
-    match nth_error (c_elems c) (p_n p) with
-    | None => p
-    | Some e =>
-      match nth_error tbl (e_rx e) with
-      | None => mkProgress (p_offc p) (p_offs p) (p_n p) true
-      | Some r =>
-        match find F guard r (dir_data (e_dir e) s) (p_off (e_dir e) p) with
-        | (None, off') => set_off (e_dir e) off' p
-        | (Some m, off') => after_match e off' m p
-        end
+  Lemma spec_from_eq : forall e rest p, spec_from e rest (p_off (e_dir e) p) (p_off (negb (e_dir e)) p) (p_vars p) =
+    seq_spec F tbl s (e :: rest) (p_offc p) (p_offs p) (p_vars p).
+  Proof. intros. unfold spec_from, p_off. destruct (e_dir e); reflexivity. Qed.
+
+  Lemma spec_from_unfold : forall e rest off other vars, spec_from e rest off other vars =
+    match resolve tbl e vars with
+    | RUndefined | RMissing => 0
+    | RRx x =>
+      let buffer := skipn off (dir_data (e_dir e) s) in
+      match plain F x buffer with
+      | None => 0
+      | Some m =>
+        let vars' := match bind x buffer m vars with Some v => v | None => vars end in
+        let en := match_end m in
+        if Nat.eqb en 0 then S (if e_dir e then seq_spec F tbl s rest other off vars' else seq_spec F tbl s rest off other vars')
+        else let off' := off + en in
+             let o := match boundary_spec s (e_dir e) off' 0 0 with Some o => o | None => 0 end in
+             S (if e_dir e then seq_spec F tbl s rest o off' vars' else seq_spec F tbl s rest off' o vars')
       end
     end.
   Proof.
-    intros p. unfold adv, attempt. rewrite Nat.eqb_refl. simpl negb. cbv iota.
-    destruct (nth_error (c_elems c) (p_n p)) as [e|]; [|reflexivity].
-    destruct (nth_error tbl (e_rx e)) as [r|]; [|reflexivity].
-    destruct (find F guard r (dir_data (e_dir e) s) (p_off (e_dir e) p)) as [[m|] off']; reflexivity.
+    intros. unfold spec_from. destruct (e_dir e) eqn:Ed; simpl; rewrite Ed;
+      destruct (resolve tbl e vars); auto;
+      destruct (plain F r (skipn off (dir_data _ s))); auto; destruct (match_end c0 =? 0); reflexivity.
+  Qed.
+
+  (* moving the offset as the precondition's find does leaves the specification where it is *)
+  Lemma spec_from_shift : forall e rest x off off' other vars, resolve tbl e vars = RRx x -> 2 <= r_ncap x ->
+    off <= off' -> off' <= length (dir_data (e_dir e) s) ->
+    plain F x (skipn off (dir_data (e_dir e) s)) = option_map (shift (off' - off)) (plain F x (skipn off' (dir_data (e_dir e) s))) ->
+    (off < off' -> forall m', plain F x (skipn off' (dir_data (e_dir e) s)) = Some m' -> match_end m' <> 0) ->
+    spec_from e rest off other vars = spec_from e rest off' other vars.
+  Proof.
+    intros e rest x off off' other vars Hr Hn Hle Hle' Hpl Hnz. rewrite !spec_from_unfold, Hr. cbv zeta.
+    rewrite Hpl. destruct (plain F x (skipn off' (dir_data (e_dir e) s))) as [m'|] eqn:Pm; simpl; auto.
+    unfold plain in Pm. destruct (search_end _ _ _ _ _ Hn Pm) as [j [en [X [Y [Z W]]]]].
+    assert (Me : match_end m' = en) by (unfold match_end; rewrite W; reflexivity).
+    assert (Ms : match_end (shift (off' - off) m') = (off' - off) + en).
+    { unfold match_end. rewrite nth_error_shift, W. reflexivity. }
+    rewrite Ms, Me. rewrite bind_shift. replace (off + (off' - off)) with off' by lia.
+    destruct (Nat.eq_dec off off') as [E|E].
+    - subst off'. rewrite Nat.sub_diag. simpl. reflexivity.
+    - assert (Hlt : off < off') by lia. specialize (Hnz Hlt m' eq_refl). rewrite Me in Hnz.
+      destruct (Nat.eqb_spec (off' - off + en) 0); [lia|]. destruct (Nat.eqb_spec en 0); [lia|].
+      replace (off + (off' - off + en)) with (off' + en) by lia. reflexivity.
+  Qed.
+
+  (* small facts about the record updates *)
+  Lemma set_off_same : forall d v p, p_off d (set_off d v p) = v.
+  Proof. intros. destruct d; reflexivity. Qed.
+  Lemma set_off_other : forall d v p, p_off (negb d) (set_off d v p) = p_off (negb d) p.
+  Proof. intros. destruct d; reflexivity. Qed.
+  Lemma set_off_fields : forall d v p, p_n (set_off d v p) = p_n p /\ p_pre (set_off d v p) = p_pre p /\
+    p_vars (set_off d v p) = p_vars p /\ p_err (set_off d v p) = p_err p.
+  Proof. intros. destruct d; simpl; auto. Qed.
+
+  Definition in_range (p : progress) : Prop := p_offc p <= length (dir_data false s) /\ p_offs p <= length (dir_data true s).
+  Lemma in_range_off : forall d p, in_range p -> p_off d p <= length (dir_data d s).
+  Proof. intros d p [A B]. destruct d; simpl; auto. Qed.
+  Lemma in_range_set : forall d v p, in_range p -> v <= length (dir_data d s) -> in_range (set_off d v p).
+  Proof. intros d v p [A B] H. destruct d; simpl; split; auto. Qed.
+
+  Lemma core_of : forall p e rest, nth_error (c_elems c) (p_n p) = Some e -> rest = skipn (S (p_n p)) (c_elems c) ->
+    (Core p <-> in_range p /\ p_n p + spec_from e rest (p_off (e_dir e) p) (p_off (negb (e_dir e)) p) (p_vars p) = total).
+  Proof.
+    intros p e rest He Hr. unfold Core, in_range. rewrite (skipn_nth_error _ _ _ _ He), <- Hr, spec_from_eq. tauto.
+  Qed.
+
+  (* ---- the stage in which the expression itself is searched *)
+  Lemma exact_spec : forall p e, nth_error (c_elems c) (p_n p) = Some e -> Bnd p -> p_err p = 0 -> Core p ->
+    (forall x, resolve tbl e (p_vars p) = RRx x -> find_ok F guard x) ->
+    let q := exact_stage F guard tbl s c e p in
+    Inv q /\ (p_n q = p_n p \/ (p_n q = S (p_n p) /\ p_pre q = false)) /\
+    (p_n q = p_n p -> p_pre q = p_pre p /\
+       (p_err q = 0 -> p_n p = total /\ p_vars q = p_vars p /\
+          p_n (exact_stage F guard tbl s c e q) = p_n q /\ p_err (exact_stage F guard tbl s c e q) = 0 /\
+          p_pre (exact_stage F guard tbl s c e q) = p_pre q)).
+  Proof.
+    intros p e He [Hn Hp] Herr Hcore Hfok q.
+    set (rest := skipn (S (p_n p)) (c_elems c)).
+    destruct (proj1 (core_of p e rest He eq_refl) Hcore) as [Hrange Heq].
+    assert (Hlt : p_n p < length (c_elems c)) by (apply nth_error_Some; congruence).
+    unfold q, exact_stage. rewrite spec_from_unfold in Heq.
+    destruct (resolve tbl e (p_vars p)) as [x| |] eqn:Er.
+    2:{ split; [split; [split; auto|simpl; discriminate]|]. split; [left; reflexivity|]. intros _. split; auto. simpl. discriminate. }
+    2:{ split; [split; [split; auto|simpl; discriminate]|]. split; [left; reflexivity|]. intros _. split; auto. simpl. discriminate. }
+    destruct (Hfok x eq_refl) as [Hnc Hfind].
+    set (d := e_dir e) in *. set (data := dir_data d s) in *. set (off := p_off d p) in *.
+    assert (Hoff : off <= length data) by (apply in_range_off; auto).
+    destruct (find F guard x data off) as [res off'] eqn:Ef.
+    pose proof (Hfind _ _ _ _ Hoff Ef) as [Hle [Hle' Hag]].
+    destruct (set_off_fields d off' p) as [Sn [Sp [Sv Se]]].
+    cbv zeta in Heq.
+    destruct res as [m|].
+    - (* found *)
+      destruct Hag as [Hpl Hz]. rewrite Hpl in Heq.
+      unfold plain in Hpl. destruct (search_end _ _ _ _ _ Hnc Hpl) as [j [en [X [Y [Z W]]]]].
+      destruct (match_end_shift _ _ _ W) as [xe [Wm [Ex [Mm Ms]]]].
+      rewrite Ms in Heq. rewrite skipn_length in Y. fold data in Y.
+      rewrite bind_shift in Heq. replace (off + (off' - off)) with off' in Heq by lia.
+      unfold after_find. fold d. fold data.
+      set (p1 := matched (set_off d off' p)).
+      assert (P1n : p_n p1 = S (p_n p)) by (unfold p1, matched; simpl; rewrite Sn; reflexivity).
+      assert (P1v : p_vars p1 = p_vars p) by (unfold p1, matched; simpl; exact Sv).
+      assert (P1e : p_err p1 = 0) by (unfold p1, matched; simpl; rewrite Se; exact Herr).
+      assert (P1p : p_pre p1 = false) by reflexivity.
+      assert (P1r : in_range p1).
+      { assert (R : in_range (set_off d off' p)) by (apply in_range_set; auto). unfold p1, matched, in_range in *. simpl. exact R. }
+      assert (P1o : p_off d p1 = off' /\ p_off (negb d) p1 = p_off (negb d) p).
+      { unfold p1, matched. destruct d; simpl; auto. }
+      assert (Bn1 : forall q', p_n q' = S (p_n p) -> p_pre q' = false -> Bnd q').
+      { intros q' A B. unfold Bnd. rewrite A, B. split; [lia | discriminate]. }
+      rewrite P1n, P1v.
+      destruct ((S (p_n p) =? length (c_elems c)) && c_inv c) eqn:Cinv.
+      + (* inverted and complete: `continue` *)
+        apply andb_true_iff in Cinv. destruct Cinv as [Cl _]. apply Nat.eqb_eq in Cl.
+        assert (Sk : rest = []) by (unfold rest; rewrite Cl; apply skipn_all).
+        rewrite Sk in Heq. simpl in Heq.
+        assert (T : S (p_n p) = total).
+        { replace (if d then 0 else 0) with 0 in Heq by (destruct d; reflexivity). destruct (en =? 0); lia. }
+        split; [|split; [right; auto | intros E; try rewrite P1n in E; lia]].
+        split; [apply Bn1; auto|]. intros _. unfold Core. rewrite P1n. fold rest. rewrite Sk. simpl.
+        destruct P1r. repeat split; auto. lia.
+      + destruct (bind x (skipn off' data) m (p_vars p)) as [vs|] eqn:Eb.
+        2:{ assert (Q1 : p_n (set_err 2 p1) = S (p_n p)) by exact P1n.
+            assert (Q2 : p_pre (set_err 2 p1) = false) by reflexivity.
+            split; [split; [apply Bn1; assumption | intros Q; simpl in Q; discriminate] |].
+            split; [right; split; assumption | intros E; rewrite Q1 in E; lia]. }
+        set (p2 := set_vars vs p1).
+        assert (P2 : p_n p2 = S (p_n p) /\ p_pre p2 = false /\ p_err p2 = 0 /\ p_vars p2 = vs /\ in_range p2 /\
+                     p_off d p2 = off' /\ p_off (negb d) p2 = p_off (negb d) p).
+        { unfold p2, set_vars. destruct P1o. destruct P1r. repeat split; simpl; auto; destruct d; auto. }
+        destruct P2 as [P2n [P2p [P2e [P2v [P2r [P2o P2x]]]]]].
+        destruct (Nat.eqb_spec (match_end m) 0) as [Ez | Ez].
+        * (* empty match at the offset: nothing moves *)
+          specialize (Hz Ez). assert (En : en = 0) by (subst off'; rewrite Mm in Ez; lia). subst off'.
+          rewrite En in Heq. simpl in Heq.
+          split; [|split; [right; auto | intros E; try rewrite P2n in E; lia]].
+          split; [apply Bn1; auto|]. intros _. unfold Core. rewrite P2n, P2v. fold rest.
+          destruct P2r as [R1 R2]. repeat split; auto.
+          assert (O1 : p_offc p2 = p_offc p /\ p_offs p2 = p_offs p).
+          { unfold off in *. destruct d; simpl in *; unfold p_off in *; simpl in *; split; congruence. }
+          destruct O1 as [O1 O2]. rewrite O1, O2.
+          unfold off in Heq. destruct d; simpl in Heq; unfold p_off in Heq; simpl in Heq; lia.
+        * (* the offsets move *)
+          rewrite Mm in Ez.
+          assert (En0 : en <> 0) by lia. destruct (Nat.eqb_spec en 0); [contradiction|].
+          set (noff := off' + match_end m).
+          assert (Enoff : off + en = noff) by (unfold noff; rewrite Mm; lia).
+          assert (Hr : 0 < noff /\ noff <= length data) by (unfold noff; rewrite Mm; lia).
+          destruct (boundary_eq s d noff (proj1 Hr) (proj2 Hr)) as [o [Bo Bs]].
+          rewrite set_off_same, Bo.
+          rewrite Enoff, Bs in Heq.
+          pose proof (boundary_spec_range _ _ _ _ _ _ Bs) as Ro. simpl in Ro.
+          set (p3 := set_off (negb d) o (set_off d noff p2)).
+          assert (P3 : p_n p3 = S (p_n p) /\ p_pre p3 = false /\ p_err p3 = 0 /\ p_vars p3 = vs).
+          { unfold p3. destruct (set_off_fields (negb d) o (set_off d noff p2)) as [A [B [C D]]].
+            destruct (set_off_fields d noff p2) as [A' [B' [C' D']]]. repeat split; congruence. }
+          destruct P3 as [P3n [P3p [P3e P3v]]].
+          split; [|split; [right; auto | intros E; try rewrite P3n in E; lia]].
+          split; [apply Bn1; auto|]. intros _. unfold Core. rewrite P3n, P3v. fold rest.
+          unfold data in Hr. destruct P2r as [R1 R2].
+          unfold p3. destruct d; simpl in *; repeat split; auto; try lia.
+    - (* not found: the sequence stops here, now and at every later visit *)
+      destruct Hag as [Hpl Hpl']. rewrite Hpl in Heq.
+      set (q' := set_off d off' p) in *.
+      assert (Qr : in_range q') by (apply in_range_set; auto).
+      assert (Qo : p_off d q' = off' /\ p_off (negb d) q' = p_off (negb d) p) by (split; [apply set_off_same | apply set_off_other]).
+      destruct Qo as [Qo Qx].
+      split; [|split; [left; exact Sn|]].
+      + split; [unfold Bnd; rewrite Sn, Sp; auto|]. intros _.
+        apply (proj2 (core_of q' e rest (eq_trans (f_equal _ Sn) He) (eq_trans eq_refl (f_equal (fun k => skipn (S k) (c_elems c)) (eq_sym Sn))))).
+        split; auto. fold d. rewrite Sn, Qo, Qx, Sv, spec_from_unfold, Er. cbv zeta. fold d. fold data. rewrite Hpl'. lia.
+      + intros _. split; auto. intros _. split; [lia|]. split; auto.
+        unfold exact_stage. rewrite Sv, Er. fold d. fold data. fold q'. rewrite Qo.
+        destruct (find F guard x data off') as [res2 off2] eqn:Ef2.
+        pose proof (Hfind _ _ _ _ Hle' Ef2) as [_ [_ Hag2]].
+        destruct res2 as [m2|].
+        * destruct Hag2 as [C _]. rewrite Hpl' in C. discriminate.
+        * destruct (set_off_fields d off2 q') as [A [B [C D]]]. rewrite A, B, D, Se. auto.
+  Qed.
+  Lemma resolve_ok : forall e vars x, In e (c_elems c) -> resolve tbl e vars = RRx x -> find_ok F guard x.
+  Proof.
+    intros e vars x Hin Hr. pose proof (Hok e Hin) as H. unfold elem_ok in H. unfold resolve in Hr.
+    destruct (e_ref e) as [k | pre uses table].
+    - destruct (nth_error tbl k) as [r|] eqn:E; [|discriminate]. inversion Hr; subst. apply H. reflexivity.
+    - destruct H as [_ [H2 _]]. destruct (vals_of vars uses) as [vs|]; [|discriminate].
+      destruct (table_find vs table) as [i|] eqn:T; [|discriminate].
+      destruct (nth_error tbl i) as [r|] eqn:E; [|discriminate]. inversion Hr; subst. eapply H2; eauto.
+  Qed.
+
+  Lemma resolve_pre_ok : forall e pre uses table vars x rp, In e (c_elems c) -> e_ref e = ESubst pre uses table ->
+    resolve tbl e vars = RRx x -> nth_error tbl pre = Some rp -> pre_ok F guard rp x.
+  Proof.
+    intros e pre uses table vars x rp Hin Hre Hr Hp. pose proof (Hok e Hin) as H. unfold elem_ok in H. unfold resolve in Hr.
+    rewrite Hre in *. destruct H as [_ [_ H3]]. destruct (vals_of vars uses) as [vs|]; [|discriminate].
+    destruct (table_find vs table) as [i|] eqn:T; [|discriminate].
+    destruct (nth_error tbl i) as [r|] eqn:E; [|discriminate]. inversion Hr; subst. eapply H3; eauto.
+  Qed.
+
+  Lemma mu_facts : forall p q, (p_n q = p_n p -> p_pre q = p_pre p -> mu q = mu p) /\
+                               (p_n q = S (p_n p) -> p_pre q = false -> mu p < mu q).
+  Proof. intros p q. unfold mu. split; intros A B; rewrite A, B; [reflexivity | destruct (p_pre p); lia]. Qed.
+
+  Lemma adv_exact : forall p e, p_err p = 0 -> nth_error (c_elems c) (p_n p) = Some e ->
+    (match e_ref e with EFixed _ => True | ESubst _ _ _ => p_pre p = true end) ->
+    adv p = exact_stage F guard tbl s c e p.
+  Proof.
+    intros p e He Hn Hs. unfold adv, attempt. rewrite Nat.eqb_refl, He, Hn. simpl.
+    destruct (e_ref e); auto. rewrite Hs. reflexivity.
   Qed.
 
   (* what one visit of the current element does *)
   Lemma adv_spec : forall p, Inv p ->
-    Inv (adv p) /\
-    (p_n (adv p) = p_n p \/ p_n (adv p) = S (p_n p)) /\
-    (p_n (adv p) = p_n p -> p_n p = total /\ p_n (adv (adv p)) = p_n (adv p)).
+    Inv (adv p) /\ mu p <= mu (adv p) /\ (p_n (adv p) = p_n p \/ p_n (adv p) = S (p_n p)) /\
+    (p_n (adv p) = p_n p -> p_pre p = true -> p_pre (adv p) = true) /\
+    (p_err (adv p) = 0 -> mu (adv p) = mu p ->
+       p_n p = total /\ mu (adv (adv p)) = mu (adv p) /\ p_err (adv (adv p)) = 0).
   Proof.
-    intros p [Hn [Hb [Hc [Hs Heq]]]]. remember (adv p) as q eqn:Eq. rewrite adv_unfold in Eq.
+    intros p [HB HC].
+    destruct (Nat.eq_dec (p_err p) 0) as [Herr | Herr].
+    2:{ assert (Ea : adv p = p) by (unfold adv; apply err_attempt; assumption). rewrite !Ea.
+        split; [split; auto|]. split; [lia|]. split; [auto|]. split; [auto|]. intros E. contradiction. }
+    specialize (HC Herr). pose proof HC as [Hc1 [Hc2 Heq]].
     destruct (nth_error (c_elems c) (p_n p)) as [e|] eqn:Ee.
     2:{ (* complete *)
-      subst q.
-      assert (p_n p = length (c_elems c)) by (apply nth_error_None in Ee; lia).
-      split; [unfold Inv; auto|]. split; auto. intros _. split.
-      - rewrite H, skipn_all in Heq. simpl in Heq. lia.
-      - rewrite adv_unfold, Ee. reflexivity. }
-    destruct (Hok e (nth_error_In _ _ Ee)) as [r [Er [Hnc Hfind]]]. rewrite Er in Eq.
-    set (d := e_dir e) in *. set (data := dir_data d s) in *. set (off := p_off d p) in *.
-    assert (Hoff : off <= length data) by (apply p_off_range; auto).
-    destruct (find F guard r data off) as [res off'] eqn:Ef.
-    pose proof (Hfind _ _ _ _ Hoff Ef) as [Hle [Hle' Hag]].
-    rewrite (skipn_nth_error _ _ _ _ Ee) in Heq. set (rest := skipn (S (p_n p)) (c_elems c)) in *.
-    simpl seq_spec in Heq. rewrite Er in Heq.
-    fold d in Heq. fold data in Heq.
-    assert (Eoff : (if d then p_offs p else p_offc p) = off) by (unfold off; destruct d; reflexivity).
-    rewrite Eoff in Heq.
+      assert (Ea : adv p = p) by (unfold adv, attempt; rewrite Nat.eqb_refl, Herr, Ee; reflexivity).
+      rewrite !Ea.
+      assert (T : p_n p = total).
+      { assert (p_n p = length (c_elems c)) by (apply nth_error_None in Ee; destruct HB; lia).
+        rewrite H, skipn_all in Heq. simpl in Heq. lia. }
+      split; [split; auto; intros _; exact HC|]. split; [lia|]. split; [auto|]. split; [auto|].
+      intros _ _. split; [exact T|]. split; [reflexivity | exact Herr]. }
+    assert (Hin : In e (c_elems c)) by (eapply nth_error_In; eauto).
+    assert (Exact : (match e_ref e with EFixed _ => True | ESubst _ _ _ => p_pre p = true end) ->
+       Inv (adv p) /\ mu p <= mu (adv p) /\ (p_n (adv p) = p_n p \/ p_n (adv p) = S (p_n p)) /\
+       (p_n (adv p) = p_n p -> p_pre p = true -> p_pre (adv p) = true) /\
+       (p_err (adv p) = 0 -> mu (adv p) = mu p ->
+          p_n p = total /\ mu (adv (adv p)) = mu (adv p) /\ p_err (adv (adv p)) = 0)).
+    { intros Hs. rewrite (adv_exact p e Herr Ee Hs).
+      destruct (exact_spec p e Ee HB Herr HC (fun x Hx => resolve_ok e _ x Hin Hx)) as [I [St K]].
+      set (q := exact_stage F guard tbl s c e p) in *.
+      destruct (mu_facts p q) as [M1 M2].
+      split; auto. split; [destruct St as [A | [A B]]; [destruct (K A) as [B _]; rewrite (M1 A B); lia | specialize (M2 A B); lia]|].
+      split; [destruct St as [A | [A B]]; auto|].
+      split; [intros A B; destruct (K A) as [C _]; congruence|].
+      intros Eq Em.
+      assert (A : p_n q = p_n p).
+      { destruct St as [A | [A B]]; auto. specialize (M2 A B). lia. }
+      destruct (K A) as [Bp K2]. destruct (K2 Eq) as [T [V [N2 [E2 P2]]]].
+      split; auto.
+      assert (Ea : adv q = exact_stage F guard tbl s c e q).
+      { apply adv_exact; auto; [rewrite A; exact Ee | destruct (e_ref e); auto; congruence]. }
+      rewrite Ea. split; auto. destruct (mu_facts q (exact_stage F guard tbl s c e q)) as [M3 _]. apply M3; auto. }
+    destruct (e_ref e) as [k | pre uses table] eqn:Ere; [apply Exact; exact I|].
+    destruct (p_pre p) eqn:Epre; [apply Exact; reflexivity|]. clear Exact.
+    (* the precondition stage *)
+    set (rest := skipn (S (p_n p)) (c_elems c)).
+    destruct (proj1 (core_of p e rest Ee eq_refl) HC) as [Hrange Heq'].
     assert (Hlt : p_n p < length (c_elems c)) by (apply nth_error_Some; congruence).
-    assert (Pn : forall v, p_n (set_off d v p) = p_n p) by (intros; destruct d; reflexivity).
-    assert (Pb : forall v, p_bad (set_off d v p) = false) by (intros; destruct d; simpl; auto).
+    assert (Unf : forall q, p_n q = p_n p -> p_err q = 0 -> p_pre q = false -> adv q =
+       match nth_error tbl pre with
+       | None => set_err 3 q
+       | Some r => let (res, off) := find F guard r (dir_data (e_dir e) s) (p_off (e_dir e) q) in
+                   match res with None => set_off (e_dir e) off q | Some _ => set_pre true (set_off (e_dir e) off q) end
+       end).
+    { intros q A B C. unfold adv, attempt. rewrite Nat.eqb_refl, B, A, Ee, Ere, C. simpl.
+      destruct (nth_error tbl pre); [|reflexivity].
+      destruct (find F guard r (dir_data (e_dir e) s) (p_off (e_dir e) q)) as [[m|] off]; reflexivity. }
+    rewrite (Unf p eq_refl Herr Epre).
+    destruct (nth_error tbl pre) as [rp|] eqn:Erp.
+    2:{ split; [split; [exact HB | simpl; discriminate]|]. split; [unfold mu; simpl; lia|]. split; [left; reflexivity|].
+        split; [intros _ E; discriminate|]. simpl. discriminate. }
+    pose proof (Hok e Hin) as Hel. unfold elem_ok in Hel. rewrite Ere in Hel. destruct Hel as [Hp1 _].
+    destruct (Hp1 rp Erp) as [Hnc Hfind].
+    set (d := e_dir e) in *. set (data := dir_data d s) in *. set (off := p_off d p) in *.
+    assert (Hoff : off <= length data) by (apply in_range_off; auto).
+    destruct (find F guard rp data off) as [res off'] eqn:Ef.
+    pose proof (Hfind _ _ _ _ Hoff Ef) as [Hle [Hle' Hag]].
+    destruct (set_off_fields d off' p) as [Sn [Sp [Sv Se]]].
+    set (q := set_off d off' p) in *.
+    assert (Qr : in_range q) by (apply in_range_set; auto).
+    assert (Qo : p_off d q = off') by apply set_off_same.
+    assert (Qx : p_off (negb d) q = p_off (negb d) p) by apply set_off_other.
+    assert (Spec0 : forall o, (forall x, resolve tbl e (p_vars p) = RRx x -> plain F x (skipn o data) = None) ->
+                    spec_from e rest o (p_off (negb d) p) (p_vars p) = 0).
+    { intros o H. rewrite spec_from_unfold. cbv zeta. fold d. fold data. destruct (resolve tbl e (p_vars p)) as [x| |]; auto.
+      rewrite (H x eq_refl). reflexivity. }
     destruct res as [m|].
-    - (* the element matches *)
-      destruct Hag as [Hpl Hz]. rewrite Hpl in Heq.
-      unfold plain in Hpl. destruct (search_end _ _ _ _ _ Hnc Hpl) as [j [en [X [Y [Z W]]]]].
-      destruct (match_end_shift _ _ _ W) as [x [Wm [Ex [Mm Ms]]]].
-      fold (match_end (shift (off' - off) m)) in Heq. rewrite Ms in Heq.
-      rewrite skipn_length in Y. fold data in Y.
-      unfold after_match in Eq. fold d in Eq. simpl p_n in Eq. rewrite Pn in Eq.
-      destruct ((S (p_n p) =? length (c_elems c)) && c_inv c) eqn:Cinv.
-      + (* inverted and complete: `continue` *)
-        apply andb_true_iff in Cinv. destruct Cinv as [Cl _]. apply Nat.eqb_eq in Cl.
-        assert (Qn : p_n q = S (p_n p)) by (subst q; reflexivity).
-        assert (Sk : rest = []) by (unfold rest; rewrite Cl; apply skipn_all).
-        rewrite Sk in Heq. simpl in Heq.
-        split; [|split; [right; exact Qn | rewrite Qn; lia]].
-        unfold Inv. rewrite Qn. fold rest. rewrite Sk. simpl seq_spec. unfold data in Hle'.
-        assert (T : S (p_n p) = total) by (destruct (en =? 0); [|replace (if d then 0 else 0) with 0 in Heq by (destruct d; reflexivity)]; lia).
-        subst q. destruct d; cbn [set_off p_n p_offc p_offs p_bad] in *; repeat split; auto; lia.
-      + destruct (Nat.eqb_spec (match_end m) 0) as [Ez | Ez].
-        * (* empty match at the offset: nothing moves *)
-          specialize (Hz Ez). subst off'. rewrite Mm in Ez. subst x. rewrite Nat.sub_diag in Ex. simpl in Ex. subst en.
-          try rewrite Ez in Heq. simpl in Heq.
-          assert (Eset : set_off d off p = p) by (unfold off; destruct d, p; reflexivity).
-          rewrite Eset in Eq.
-          assert (Qn : p_n q = S (p_n p)) by (subst q; reflexivity).
-          split; [|split; [right; exact Qn | rewrite Qn; lia]].
-          unfold Inv. rewrite Qn. fold rest. subst q. cbn [p_n p_offc p_offs p_bad]. repeat split; auto; lia.
-        * (* the offsets move *)
-          rewrite Mm in Ez.
-          assert (En0 : en <> 0) by lia. destruct (Nat.eqb_spec en 0); [contradiction|].
-          set (noff := off' + match_end m) in *.
-          assert (Enoff : off + en = noff) by (unfold noff; rewrite Mm; lia).
-          assert (Hr : 0 < noff /\ noff <= length data) by (unfold noff; rewrite Mm; lia).
-          destruct (boundary_eq s d noff (proj1 Hr) (proj2 Hr)) as [o [Bo Bs]].
-          assert (Poff1 : forall p1, p_off d (set_off d noff p1) = noff) by (intros; destruct d; reflexivity).
-          rewrite Poff1, Bo in Eq.
-          rewrite Enoff, Bs in Heq.
-          pose proof (boundary_spec_range _ _ _ _ _ _ Bs) as Ro. simpl in Ro.
-          assert (Qn : p_n q = S (p_n p)) by (subst q; destruct d; reflexivity).
-          split; [|split; [right; exact Qn | rewrite Qn; lia]].
-          unfold Inv. rewrite Qn. fold rest. unfold data in Hr. unfold data in Hle'.
-          subst q. destruct d; cbn [set_off negb p_n p_offc p_offs p_bad] in *; repeat split; auto; try lia.
-    - (* the element does not match: the sequence stops here, now and at every later visit *)
-      destruct Hag as [Hpl Hpl']. rewrite Hpl in Heq.
-      assert (Poff : p_off d (set_off d off' p) = off') by (destruct d; reflexivity).
-      assert (Qn : p_n q = p_n p) by (subst q; apply Pn).
-      split; [|split; [left; exact Qn|]].
-      + unfold Inv. rewrite Qn. subst q. rewrite Pb. unfold data in Hle'.
-        rewrite (skipn_nth_error _ _ _ _ Ee). simpl seq_spec. rewrite Er. fold d. fold data.
-        assert (Eoff' : (if d then p_offs (set_off d off' p) else p_offc (set_off d off' p)) = off') by (destruct d; reflexivity).
-        rewrite Eoff', Hpl'. destruct d; simpl; repeat split; auto; lia.
-      + intros _. split; [lia|].
-        (* a second visit fails again *)
-        rewrite adv_unfold. rewrite Qn, Ee, Er. fold d. fold data. subst q. rewrite Poff.
-        destruct (find F guard r data off') as [res2 off2] eqn:Ef2.
+    - (* the precondition matches: next pass compiles and searches the expression itself *)
+      destruct Hag as [Hpl Hz].
+      assert (Qn : p_n (set_pre true q) = p_n p) by exact Sn.
+      split; [|split; [unfold mu; simpl; rewrite Sn, Epre; lia|split; [left; exact Qn|split; [intros; reflexivity|]]]].
+      + split; [unfold Bnd; simpl; rewrite Sn; split; auto; lia|]. intros _.
+        apply (proj2 (core_of (set_pre true q) e rest (eq_trans (f_equal _ Sn) Ee) (f_equal (fun k => skipn (S k) (c_elems c)) (eq_sym Sn)))).
+        split; [exact Qr|]. change (p_off (e_dir e) (set_pre true q)) with (p_off d q).
+        change (p_off (negb (e_dir e)) (set_pre true q)) with (p_off (negb d) q).
+        change (p_vars (set_pre true q)) with (p_vars q). change (p_n (set_pre true q)) with (p_n q).
+        rewrite Sn, Qo, Qx, Sv. rewrite <- Heq'. f_equal. fold d. fold off.
+        destruct (resolve tbl e (p_vars p)) as [x| |] eqn:Er.
+        * destruct (resolve_pre_ok e pre uses table _ x rp Hin Ere Er Erp) as [_ P2].
+          destruct (P2 data off m off' Hoff Ef) as [A B].
+          destruct (resolve_ok e _ x Hin Er) as [Hncx _].
+          symmetry. apply (spec_from_shift e rest x off off' _ _ Er Hncx Hle Hle' A B).
+        * rewrite !spec_from_unfold, Er. reflexivity.
+        * rewrite !spec_from_unfold, Er. reflexivity.
+      + intros _ Em. unfold mu in Em. simpl in Em. rewrite Sn, Epre in Em. lia.
+    - (* the precondition does not match: neither does the expression; the sequence stops *)
+      destruct Hag as [Hpl Hpl'].
+      assert (Z1 : spec_from e rest off (p_off (negb d) p) (p_vars p) = 0).
+      { apply Spec0. intros x Er. destruct (resolve_pre_ok e pre uses table _ x rp Hin Ere Er Erp) as [P1 _]. apply P1. exact Hpl. }
+      assert (Z2 : spec_from e rest off' (p_off (negb d) p) (p_vars p) = 0).
+      { apply Spec0. intros x Er. destruct (resolve_pre_ok e pre uses table _ x rp Hin Ere Er Erp) as [P1 _]. apply P1. exact Hpl'. }
+      assert (Mq : mu q = mu p) by (unfold mu; rewrite Sn, Sp; reflexivity).
+      split; [|split; [lia|split; [left; exact Sn|split; [intros _ E; congruence|]]]].
+      + split; [unfold Bnd; rewrite Sn, Sp; exact HB|]. intros _.
+        apply (proj2 (core_of q e rest (eq_trans (f_equal _ Sn) Ee) (f_equal (fun k => skipn (S k) (c_elems c)) (eq_sym Sn)))).
+        split; [exact Qr|]. fold d. rewrite Sn, Qo, Qx, Sv, Z2. fold d in Heq'. fold off in Heq'. rewrite Z1 in Heq'. exact Heq'.
+      + intros _ _. fold d in Heq'. fold off in Heq'. rewrite Z1 in Heq'. split; [lia|].
+        rewrite (Unf q Sn (eq_trans Se Herr) (eq_trans Sp Epre)). fold d. fold data. rewrite Qo.
+        destruct (find F guard rp data off') as [res2 off2] eqn:Ef2.
         pose proof (Hfind _ _ _ _ Hle' Ef2) as [_ [_ Hag2]].
         destruct res2 as [m2|].
         * destruct Hag2 as [C _]. rewrite Hpl' in C. discriminate.
-        * destruct d; reflexivity.
+        * destruct (set_off_fields d off2 q) as [A [B [C D]]]. split; [unfold mu; rewrite A, B; reflexivity | rewrite D, Se; exact Herr].
   Qed.
 
   Lemma adv_inv : forall p, Inv p -> Inv (adv p).
   Proof. intros p H. apply adv_spec. exact H. Qed.
 
-  (* a condition that no longer advances: closed under further visits *)
-  Definition Stuck (p : progress) : Prop := Inv p /\ p_n (adv p) = p_n p.
+  (* a condition that no longer advances (and has not failed): closed under further visits *)
+  Definition Stuck (p : progress) : Prop := Inv p /\ p_err p = 0 /\ mu (adv p) = mu p /\ p_err (adv p) = 0.
+
+  Lemma mu_n : forall p q, mu p = mu q -> p_n p = p_n q.
+  Proof. intros p q. unfold mu. destruct (p_pre p), (p_pre q); lia. Qed.
 
   Lemma stuck_total : forall p, Stuck p -> p_n p = total.
-  Proof. intros p [H E]. destruct (adv_spec p H) as [_ [_ K]]. apply K. exact E. Qed.
+  Proof. intros p [H [E [M E2]]]. destruct (adv_spec p H) as [_ [_ [_ [_ K]]]]. apply K; auto. Qed.
 
-  Lemma stuck_adv : forall p, Stuck p -> Stuck (adv p) /\ p_n (adv p) = p_n p.
+  Lemma stuck_adv : forall p, Stuck p -> Stuck (adv p) /\ mu (adv p) = mu p.
   Proof.
-    intros p [H E]. destruct (adv_spec p H) as [I [_ K]]. destruct (K E) as [_ E2].
-    split; auto. split; auto.
+    intros p [H [E [M E2]]]. destruct (adv_spec p H) as [I [_ [_ [_ K]]]]. destruct (K E2 M) as [_ [M2 E3]].
+    split; [|exact M]. unfold Stuck. auto.
   Qed.
 
-  Lemma stuck_attempt : forall k p, Stuck p -> Stuck (attempt F guard tbl s c k p) /\ p_n (attempt F guard tbl s c k p) = p_n p.
+  Lemma stuck_attempt : forall k p, Stuck p -> Stuck (attempt F guard tbl s c k p) /\ mu (attempt F guard tbl s c k p) = mu p.
   Proof.
     intros k p H. destruct (attempt_cases k p) as [E | [_ E]]; rewrite E; auto. apply stuck_adv. exact H.
   Qed.
 
-  Lemma inv_attempt : forall k p, Inv p -> Inv (attempt F guard tbl s c k p) /\
-    (p_n (attempt F guard tbl s c k p) = p_n p \/ (k = p_n p /\ p_n (attempt F guard tbl s c k p) = S (p_n p))).
+  Lemma inv_attempt : forall k p, Inv p -> Inv (attempt F guard tbl s c k p) /\ mu p <= mu (attempt F guard tbl s c k p) /\
+    (p_n (attempt F guard tbl s c k p) = p_n p \/ (k = p_n p /\ p_n (attempt F guard tbl s c k p) = S (p_n p))) /\
+    (p_n (attempt F guard tbl s c k p) = p_n p -> p_pre p = true -> p_pre (attempt F guard tbl s c k p) = true).
   Proof.
-    intros k p H. destruct (attempt_cases k p) as [E | [Ek E]]; rewrite E; auto.
-    destruct (adv_spec p H) as [I [[A|A] _]]; auto.
+    intros k p H. destruct (attempt_cases k p) as [E | [Ek E]]; rewrite E.
+    - split; [exact H|]. split; [lia|]. split; [left; reflexivity | auto].
+    - destruct (adv_spec p H) as [I [M [St [B _]]]]. split; [exact I|]. split; [exact M|]. split; [|exact B].
+      destruct St as [A|A]; [left; exact A | right; split; [exact Ek | exact A]].
   Qed.
 
   Lemma complete_attempt : forall k p, p_n p = length (c_elems c) -> attempt F guard tbl s c k p = p.
   Proof.
     intros k p H. unfold attempt. destruct (Nat.eqb_spec k (p_n p)); auto. simpl.
+    destruct (Nat.eqb (p_err p) 0); auto. simpl.
     subst k. rewrite H. assert (E : nth_error (c_elems c) (length (c_elems c)) = None) by (apply nth_error_None; lia).
     rewrite E. reflexivity.
+  Qed.
+
+  Lemma err_persist : forall k p, p_err p <> 0 -> p_err (attempt F guard tbl s c k p) <> 0.
+  Proof. intros k p H. rewrite err_attempt; auto. Qed.
+
+  (* a visit that does not ask for another pass made no progress, or completed its sequence *)
+  Lemma quiet_attempt : forall k p, Inv p -> advanced_incomplete c p (attempt F guard tbl s c k p) = false ->
+    mu (attempt F guard tbl s c k p) = mu p \/ p_n (attempt F guard tbl s c k p) = length (c_elems c).
+  Proof.
+    intros k p H Hf. destruct (inv_attempt k p H) as [_ [_ [St Pp]]].
+    set (q := attempt F guard tbl s c k p) in *. unfold advanced_incomplete in Hf.
+    apply orb_false_iff in Hf. destruct Hf as [F1 F2].
+    destruct St as [A | [_ A]].
+    - left. unfold mu. rewrite A. destruct (p_pre p) eqn:Ep.
+      + rewrite (Pp A eq_refl). reflexivity.
+      + simpl in F2. rewrite F2. reflexivity.
+    - right. destruct (Nat.eqb_spec (p_n q) (p_n p)); [lia|]. simpl in F1.
+      destruct (Nat.eqb_spec (p_n q) (length (c_elems c))); [auto | discriminate].
   Qed.
 End OneCondition.
 
@@ -403,16 +684,17 @@ Section Loop.
     subst. apply IH.
   Qed.
 
-  (* a pass that does not ask for another one *)
+  (* a pass that does not ask for another one; only sequences that have not failed are described *)
   Lemma quiet_fold : forall os ps ps', GI ps -> fold_left vis os (ps, false) = (ps', false) ->
-    forall ci c p p', nth_error cs ci = Some c -> nth_error ps ci = Some p -> nth_error ps' ci = Some p' ->
-      (p_n p' = p_n p \/ p_n p' = length (c_elems c)) /\
-      (Stuck F guard tbl s c p -> Stuck F guard tbl s c p' /\ p_n p' = p_n p) /\
+    forall ci c p p', nth_error cs ci = Some c -> nth_error ps ci = Some p -> nth_error ps' ci = Some p' -> p_err p' = 0 ->
+      p_err p = 0 /\
+      (mu p' = mu p \/ p_n p' = length (c_elems c)) /\
+      (Stuck F guard tbl s c p -> Stuck F guard tbl s c p' /\ mu p' = mu p) /\
       (forall k, In (ci, k) os -> p_n p' = k -> k < length (c_elems c) -> Stuck F guard tbl s c p').
   Proof.
-    induction os as [|[ci0 k0] os IH]; intros ps ps' HG H ci c p p' Ec Ep Ep'.
+    induction os as [|[ci0 k0] os IH]; intros ps ps' HG H ci c p p' Ec Ep Ep' Herr'.
     - simpl in H. inversion H; subst. rewrite Ep in Ep'. inversion Ep'; subst.
-      split; [left; reflexivity | split; [intros Hs; split; [exact Hs | reflexivity] | intros k []]].
+      split; [exact Herr'|]. split; [left; reflexivity | split; [intros Hs; split; [exact Hs | reflexivity] | intros k []]].
     - simpl in H. destruct (vis (ps, false) (ci0, k0)) as [ps1 ag1] eqn:Ev.
       assert (ag1 = false).
       { destruct ag1; auto. pose proof (fold_flag_true os ps1) as T. rewrite H in T. discriminate. }
@@ -420,12 +702,12 @@ Section Loop.
       assert (HG1 : GI ps1) by (replace ps1 with (fst (vis (ps, false) (ci0, k0))) by (rewrite Ev; reflexivity); apply visit_GI; auto).
       destruct (nth_error cs ci0) as [c0|] eqn:Ec0.
       2:{ unfold vis, visit in Ev. simpl in Ev. rewrite Ec0 in Ev. inversion Ev; subst ps1.
-          destruct (IH _ _ HG H ci c p p' Ec Ep Ep') as [A [B C]].
-          split; [exact A | split; [exact B | intros k [E|E]; [inversion E; subst; congruence | eauto]]]. }
+          destruct (IH _ _ HG H ci c p p' Ec Ep Ep' Herr') as [E0 [A [B C]]].
+          split; [exact E0 | split; [exact A | split; [exact B | intros k [E|E]; [inversion E; subst; congruence | eauto]]]]. }
       destruct (nth_error ps ci0) as [p0|] eqn:Ep0.
       2:{ unfold vis, visit in Ev. simpl in Ev. rewrite Ec0, Ep0 in Ev. inversion Ev; subst ps1.
-          destruct (IH _ _ HG H ci c p p' Ec Ep Ep') as [A [B C]].
-          split; [exact A | split; [exact B | intros k [E|E]; [inversion E; subst; congruence | eauto]]]. }
+          destruct (IH _ _ HG H ci c p p' Ec Ep Ep' Herr') as [E0 [A [B C]]].
+          split; [exact E0 | split; [exact A | split; [exact B | intros k [E|E]; [inversion E; subst; congruence | eauto]]]]. }
       rewrite (visit_eq _ _ _ _ _ _ Ec0 Ep0) in Ev. inversion Ev as [[E1 E2]]. clear Ev.
       simpl in E2.
       destruct (Nat.eq_dec ci ci0) as [Eci | Eci].
@@ -435,29 +717,30 @@ Section Loop.
         { rewrite <- E1. rewrite nth_error_update_same, Ep. reflexivity. }
         pose proof (ok_of_nth _ _ Ec) as Hok.
         assert (Hinv : Inv F tbl s c p) by (exact (Forall2_nth _ _ _ _ _ _ _ _ HG Ec Ep)).
-        destruct (inv_attempt F guard tbl s c Hok k0 p Hinv) as [Hinv1 Hstep]. fold p1 in Hinv1, Hstep.
-        destruct (IH _ _ HG1 H ci c p1 p' Ec Ep1 Ep') as [A [B C]].
-        unfold advanced_incomplete in E2. fold p1 in E2.
-        split; [|split].
-        * destruct Hstep as [S0 | [Sk S1]]; [rewrite <- S0; exact A|].
-          assert (Hc : p_n p1 = length (c_elems c)).
-          { destruct (Nat.eqb_spec (p_n p1) (p_n p)); [lia|]. simpl in E2.
-            destruct (Nat.eqb_spec (p_n p1) (length (c_elems c))); [auto | discriminate]. }
-          right. destruct A as [A|A]; lia.
+        destruct (inv_attempt F guard tbl s c Hok k0 p Hinv) as [Hinv1 [Hmono [Hstep Hpre]]]. fold p1 in Hinv1, Hmono, Hstep, Hpre.
+        destruct (IH _ _ HG1 H ci c p1 p' Ec Ep1 Ep' Herr') as [Herr1 [A [B C]]].
+        assert (Herr0 : p_err p = 0).
+        { destruct (Nat.eq_dec (p_err p) 0); auto. exfalso. apply (err_persist F guard tbl s c k0 p n). exact Herr1. }
+        pose proof (quiet_attempt F guard tbl s c Hok k0 p Hinv E2) as Q. fold p1 in Q.
+        split; [exact Herr0|]. split; [|split].
+        * destruct Q as [Q | Q].
+          -- rewrite <- Q. exact A.
+          -- right. destruct A as [A|A]; auto. rewrite (mu_n _ _ A). exact Q.
         * intros Hs. destruct (stuck_attempt F guard tbl s c Hok k0 p Hs) as [S1 S2]. fold p1 in S1, S2.
           destruct (B S1) as [B1 B2]. split; auto. lia.
         * intros k [E|E] Hk Hlt; [|eauto].
           inversion E; subst k0. clear E.
-          assert (P1 : p_n p1 = k) by (destruct A as [A|A]; lia).
-          assert (Kp : p_n p = k) by (destruct Hstep as [S0 | [Sk S1]]; lia).
+          assert (P1 : p_n p1 = k) by (destruct A as [A|A]; [rewrite <- (mu_n _ _ A); exact Hk | lia]).
+          assert (M1 : mu p1 = mu p) by (destruct Q as [Q|Q]; [exact Q | lia]).
+          assert (Kp : p_n p = k) by (rewrite <- (mu_n _ _ M1); exact P1).
           assert (Hs : Stuck F guard tbl s c p).
-          { split; auto. unfold adv. rewrite Kp. fold p1. lia. }
+          { split; auto. split; auto. unfold adv. rewrite Kp. fold p1. auto. }
           destruct (stuck_attempt F guard tbl s c Hok k p Hs) as [S1 _]. fold p1 in S1.
           apply B. exact S1.
       + assert (Ep1 : nth_error ps1 ci = Some p).
         { rewrite <- E1. rewrite nth_error_update_other by auto. exact Ep. }
-        destruct (IH _ _ HG1 H ci c p p' Ec Ep1 Ep') as [A [B C]].
-        split; [exact A | split; [exact B | intros k [E|E]; [inversion E; subst; congruence | eauto]]].
+        destruct (IH _ _ HG1 H ci c p p' Ec Ep1 Ep' Herr') as [E0 [A [B C]]].
+        split; [exact E0 | split; [exact A | split; [exact B | intros k [E|E]; [inversion E; subst; congruence | eauto]]]].
   Qed.
 End Loop.
 
@@ -556,10 +839,10 @@ Qed.
 
 (* ------------------------------------------------------------------ the loop ends with every sequence where the plain scan puts it *)
 Definition sumlen (cs : list cond) : nat := fold_right (fun c a => length (c_elems c) + a) 0 cs.
-Definition total_n (ps : list progress) : nat := fold_right (fun p a => p_n p + a) 0 ps.
+Definition total_mu (ps : list progress) : nat := fold_right (fun p a => mu p + a) 0 ps.
 
-Lemma total_n_update : forall ps i p p', nth_error ps i = Some p ->
-  total_n (update i (fun _ => p') ps) + p_n p = total_n ps + p_n p'.
+Lemma total_mu_update : forall ps i p p', nth_error ps i = Some p ->
+  total_mu (update i (fun _ => p') ps) + mu p = total_mu ps + mu p'.
 Proof.
   induction ps as [|q ps IH]; intros i p p' H; destruct i; simpl in *; try discriminate.
   - inversion H; subst. lia.
@@ -569,8 +852,8 @@ Qed.
 Lemma Forall2_map_progress0 : forall F tbl s cs, Forall2 (fun c p => Inv F tbl s c p) cs (map (fun _ => progress0) cs).
 Proof. intros. induction cs; simpl; constructor; auto. apply Inv0. Qed.
 
-Lemma total_bound : forall cs ps, Forall2 (fun c p => p_n p <= length (c_elems c)) cs ps -> total_n ps <= sumlen cs.
-Proof. intros cs ps H. induction H; simpl; auto. unfold total_n, sumlen in *. simpl. lia. Qed.
+Lemma total_bound : forall cs ps, Forall2 (fun c p => mu p <= 2 * length (c_elems c)) cs ps -> total_mu ps <= 2 * sumlen cs.
+Proof. intros cs ps H. induction H; simpl; auto. unfold total_mu, sumlen in *. simpl. lia. Qed.
 
 Lemma Forall2_weaken : forall A B (R1 R2 : A -> B -> Prop) l1 l2, (forall a b, R1 a b -> R2 a b) -> Forall2 R1 l1 l2 -> Forall2 R2 l1 l2.
 Proof. intros A B R1 R2 l1 l2 H F. induction F; constructor; auto. Qed.
@@ -579,33 +862,39 @@ Section Loop2.
   Variables (F : nat) (guard : bool) (tbl : list rx) (s : source) (cs : list cond).
   Hypothesis Hall : forall c, In c cs -> tbl_ok F guard tbl c.
 
-  Lemma GI_bound : forall ps, GI F tbl s cs ps -> total_n ps <= sumlen cs.
+  Lemma GI_bound : forall ps, GI F tbl s cs ps -> total_mu ps <= 2 * sumlen cs.
   Proof.
-    intros ps H. apply total_bound. eapply Forall2_weaken; [|exact H]. intros a b [Hn _]. exact Hn.
+    intros ps H. apply total_bound. eapply Forall2_weaken; [|exact H]. intros a b [[Hn Hp] _].
+    unfold mu. destruct (p_pre b); [specialize (Hp eq_refl); lia | lia].
   Qed.
 
   Lemma visit_total : forall ps ag o, GI F tbl s cs ps ->
-    total_n ps <= total_n (fst (vis F guard tbl s cs (ps, ag) o)) /\
-    (ag = false -> snd (vis F guard tbl s cs (ps, ag) o) = true -> total_n ps < total_n (fst (vis F guard tbl s cs (ps, ag) o))).
+    total_mu ps <= total_mu (fst (vis F guard tbl s cs (ps, ag) o)) /\
+    (ag = false -> snd (vis F guard tbl s cs (ps, ag) o) = true -> total_mu ps < total_mu (fst (vis F guard tbl s cs (ps, ag) o))).
   Proof.
     intros ps ag [ci k] HG. unfold vis, visit. simpl.
     destruct (nth_error cs ci) as [c|] eqn:Ec; [|simpl; split; [lia | intros; subst; discriminate]].
     destruct (nth_error ps ci) as [p|] eqn:Ep; [|simpl; split; [lia | intros; subst; discriminate]].
     simpl.
-    pose proof (total_n_update ps ci p (attempt F guard tbl s c k p) Ep) as T.
+    pose proof (total_mu_update ps ci p (attempt F guard tbl s c k p) Ep) as T.
     assert (Hinv : Inv F tbl s c p) by (exact (Forall2_nth _ _ _ _ _ _ _ _ HG Ec Ep)).
-    destruct (inv_attempt F guard tbl s c (ok_of_nth F guard tbl cs Hall _ _ Ec) k p Hinv) as [_ Hstep].
-    split.
-    - destruct Hstep as [E | [_ E]]; lia.
-    - intros Ea Hf. subst ag. simpl in Hf. unfold advanced_incomplete in Hf.
+    pose proof (ok_of_nth F guard tbl cs Hall _ _ Ec) as Hok.
+    destruct (inv_attempt F guard tbl s c Hok k p Hinv) as [_ [Hmono [Hstep Hpre]]].
+    split; [lia|].
+    intros Ea Hf. subst ag. simpl in Hf.
+    assert (mu p < mu (attempt F guard tbl s c k p)); [|lia].
+    unfold advanced_incomplete in Hf. apply orb_true_iff in Hf. destruct Hf as [Hf | Hf].
+    - apply andb_true_iff in Hf. destruct Hf as [Hf _].
       destruct (Nat.eqb_spec (p_n (attempt F guard tbl s c k p)) (p_n p)); [discriminate|].
-      destruct Hstep as [E | [_ E]]; lia.
+      destruct Hstep as [E | [_ E]]; [contradiction|]. unfold mu in *. rewrite E. destruct (p_pre p), (p_pre (attempt F guard tbl s c k p)); lia.
+    - apply andb_true_iff in Hf. destruct Hf as [H1 H2]. apply negb_true_iff in H1.
+      unfold mu in *. rewrite H1, H2 in *. lia.
   Qed.
 
   Lemma fold_total : forall os ps ag, GI F tbl s cs ps ->
-    total_n ps <= total_n (fst (fold_left (vis F guard tbl s cs) os (ps, ag))) /\
+    total_mu ps <= total_mu (fst (fold_left (vis F guard tbl s cs) os (ps, ag))) /\
     (ag = false -> snd (fold_left (vis F guard tbl s cs) os (ps, ag)) = true ->
-     total_n ps < total_n (fst (fold_left (vis F guard tbl s cs) os (ps, ag)))).
+     total_mu ps < total_mu (fst (fold_left (vis F guard tbl s cs) os (ps, ag)))).
   Proof.
     induction os as [|o os IH]; intros ps ag HG; simpl.
     - split; [lia | intros; subst; discriminate].
@@ -619,10 +908,10 @@ Section Loop2.
       + specialize (I2 eq_refl Hf). lia.
   Qed.
 
-  Lemma loop_spec : forall fuel ps, GI F tbl s cs ps -> sumlen cs - total_n ps < fuel ->
+  Lemma loop_spec : forall fuel ps, GI F tbl s cs ps -> 2 * sumlen cs - total_mu ps < fuel ->
     GI F tbl s cs (group_loop F guard tbl s cs (visit_order cs) fuel ps) /\
     forall ci c p', nth_error cs ci = Some c ->
-      nth_error (group_loop F guard tbl s cs (visit_order cs) fuel ps) ci = Some p' ->
+      nth_error (group_loop F guard tbl s cs (visit_order cs) fuel ps) ci = Some p' -> p_err p' = 0 ->
       p_n p' = total F tbl s c.
   Proof.
     induction fuel as [|f IH]; intros ps HG Hf; [lia|].
@@ -632,38 +921,40 @@ Section Loop2.
     { replace ps1 with (fst (fold_left (vis F guard tbl s cs) (visit_order cs) (ps, false))) by (rewrite E; reflexivity).
       apply fold_GI; auto. }
     destruct again.
-    - (* another pass: some sequence advanced *)
-      pose proof (fold_total (visit_order cs) ps false HG) as [_ T]. rewrite E in T. simpl in T. specialize (T eq_refl eq_refl).
+    - pose proof (fold_total (visit_order cs) ps false HG) as [_ T]. rewrite E in T. simpl in T. specialize (T eq_refl eq_refl).
       pose proof (GI_bound ps1 HG1). apply IH; auto. lia.
-    - split; auto. intros ci c p' Ec Ep'.
+    - split; auto. intros ci c p' Ec Ep' Herr'.
       destruct (Forall2_nth_ex _ _ _ _ _ _ _ HG Ec) as [p [Ep _]].
-      destruct (quiet_fold F guard tbl s cs Hall _ _ _ HG E ci c p p' Ec Ep Ep') as [_ [_ C]].
+      destruct (quiet_fold F guard tbl s cs Hall _ _ _ HG E ci c p p' Ec Ep Ep' Herr') as [_ [_ [_ C]]].
       pose proof (Forall2_nth _ _ _ _ _ _ _ _ HG1 Ec Ep') as Hinv.
       pose proof (ok_of_nth F guard tbl cs Hall _ _ Ec) as Hok.
       destruct (Nat.lt_ge_cases (p_n p') (length (c_elems c))) as [L | L].
       + apply (stuck_total F guard tbl s c Hok). apply (C (p_n p')); auto.
         apply visit_order_complete with (c := c); auto.
-      + apply (stuck_total F guard tbl s c Hok). split; auto.
-        destruct Hinv as [Hn _]. unfold adv. rewrite complete_attempt; auto. lia.
+      + apply (stuck_total F guard tbl s c Hok).
+        assert (Ea : adv F guard tbl s c p' = p').
+        { unfold adv. apply complete_attempt. destruct Hinv as [[Hn _] _]. lia. }
+        split; auto. split; auto. rewrite Ea. auto.
   Qed.
 
   Theorem source_eval_spec : forall ci c, nth_error cs ci = Some c ->
-    exists p, nth_error (source_eval F guard tbl cs s) ci = Some p /\
-              p_n p = seq_spec F tbl s (c_elems c) 0 0 /\ p_n p <= length (c_elems c).
+    exists p, nth_error (source_eval F guard tbl cs s) ci = Some p /\ p_n p <= length (c_elems c) /\
+              (p_err p = 0 -> p_n p = seq_spec F tbl s (c_elems c) 0 0 []).
   Proof.
     intros ci c Ec. unfold source_eval.
-    assert (HG0 : GI F tbl s cs (map (fun _ => progress0) cs)).
-    { unfold GI. apply Forall2_map_progress0. }
-    assert (Hf : sumlen cs - total_n (map (fun _ : cond => progress0) cs) < loop_fuel cs).
+    assert (HG0 : GI F tbl s cs (map (fun _ => progress0) cs)) by (unfold GI; apply Forall2_map_progress0).
+    assert (Z : total_mu (map (fun _ : cond => progress0) cs) = 0).
+    { clear. induction cs; simpl; auto. }
+    assert (Hf : 2 * sumlen cs - total_mu (map (fun _ : cond => progress0) cs) < loop_fuel cs).
     { unfold loop_fuel. fold (sumlen cs). lia. }
     destruct (loop_spec _ _ HG0 Hf) as [HG L].
     destruct (Forall2_nth_ex _ _ _ _ _ _ _ HG Ec) as [p [Ep Hinv]].
-    exists p. split; auto. split; [apply (L _ _ _ Ec Ep) | apply Hinv].
+    exists p. split; auto. split; [apply Hinv | intros He; apply (L _ _ _ Ec Ep He)].
   Qed.
 End Loop2.
 
 (* ------------------------------------------------------------------ end to end *)
-Lemma cond_success_spec : forall F tbl s c p, p_n p = seq_spec F tbl s (c_elems c) 0 0 -> p_n p <= length (c_elems c) ->
+Lemma cond_success_spec : forall F tbl s c p, p_n p = seq_spec F tbl s (c_elems c) 0 0 [] -> p_n p <= length (c_elems c) ->
   cond_success c p = cond_holds_spec F tbl c s.
 Proof.
   intros F tbl s c p E L. unfold cond_success, cond_holds_spec. rewrite <- E.
@@ -679,23 +970,28 @@ Proof.
       assert (len - n = 1) by lia. rewrite H0. reflexivity.
 Qed.
 
+(* no error on any evaluated source: exactly when the filter returns without error *)
+Definition no_error (F : nat) (guard : bool) (tbl : list rx) (cn : conv_name) (cs : list cond) (st : stream) : Prop :=
+  forall s p, In s (sources_of cn st) -> In p (source_eval F guard tbl cs s) -> p_err p = 0.
+
 Theorem conj_selected_spec : forall F guard tbl cn cs st,
-  (forall c, In c cs -> tbl_ok F guard tbl c) ->
+  (forall c, In c cs -> tbl_ok F guard tbl c) -> no_error F guard tbl cn cs st ->
   conj_selected F guard tbl cn cs st = conj_spec F tbl cn cs st.
 Proof.
-  intros F guard tbl cn cs st Hall. apply conj_accounting. intros s ci c _ Ec.
-  destruct (source_eval_spec F guard tbl s cs Hall ci c Ec) as [p [Ep [En Hl]]]. rewrite Ep.
-  apply cond_success_spec; auto.
+  intros F guard tbl cn cs st Hall Hne. apply conj_accounting. intros s ci c Hs Ec.
+  destruct (source_eval_spec F guard tbl s cs Hall ci c Ec) as [p [Ep [Hl En]]]. rewrite Ep.
+  apply cond_success_spec; auto. apply En. apply (Hne s p Hs). eapply nth_error_In; eauto.
 Qed.
 
 Theorem stream_selected_spec : forall F guard tbl cn ors st,
   (forall cs c, In cs ors -> In c cs -> tbl_ok F guard tbl c) ->
+  (forall cs, In cs ors -> no_error F guard tbl cn cs st) ->
   stream_selected F guard tbl cn ors st = stream_spec F tbl cn ors st.
 Proof.
-  intros F guard tbl cn ors st Hall. unfold stream_selected, stream_spec.
+  intros F guard tbl cn ors st Hall Hne. unfold stream_selected, stream_spec.
   induction ors as [|cs ors IH]; simpl; auto.
-  rewrite conj_selected_spec by (intros c Hc; apply (Hall cs c); simpl; auto).
-  f_equal. apply IH. intros cs' c Hcs Hc. apply (Hall cs' c); simpl; auto.
+  rewrite conj_selected_spec; [|intros c Hc; apply (Hall cs c); simpl; auto | apply Hne; simpl; auto].
+  f_equal. apply IH; intros; [eapply Hall | apply Hne]; simpl; eauto.
 Qed.
 
 (* the hypothesis of the end-to-end statement, from the facts computed by the analyses *)
@@ -746,13 +1042,41 @@ Proof.
     + eapply facts_sound_model; eauto.
 Qed.
 
+(* an element over a table of prepared expressions: what remains to be known about an element with variables is the
+   relation between its precondition and its substituted expressions (two separately compiled programs) *)
+Definition elem_prepared (F : nat) (tbl : list rx) (e : elem) : Prop :=
+  match e_ref e with
+  | EFixed _ => True
+  | ESubst pre uses table =>
+      forall rp vs i r, nth_error tbl pre = Some rp -> table_find vs table = Some i -> nth_error tbl i = Some r ->
+                        pre_ok F true rp r
+  end.
+
+Lemma elem_ok_prepared : forall F tbl e, Forall prepared tbl -> elem_prepared F tbl e -> elem_ok F true tbl e.
+Proof.
+  intros F tbl e Hp He. rewrite Forall_forall in Hp.
+  assert (K : forall i r, nth_error tbl i = Some r -> find_ok F true r).
+  { intros i r H. apply find_ok_prepared. apply Hp. eapply nth_error_In; eauto. }
+  unfold elem_ok, elem_prepared in *. destruct (e_ref e) as [k | pre uses table].
+  - intros r H. eapply K; eauto.
+  - split; [intros rp H; eapply K; eauto|]. split; [intros vs i r _ H; eapply K; eauto | exact He].
+Qed.
+
+(* for a precondition with empty-width assertions (scanned plainly, offset untouched) only the inclusion is needed *)
+Lemma pre_ok_guarded : forall F pre ex, context_sensitive pre = true ->
+  (forall buffer, plain F pre buffer = None -> plain F ex buffer = None) -> pre_ok F true pre ex.
+Proof.
+  intros F pre ex Hc Hi. split; auto. intros data off m off' Hoff H.
+  rewrite find_guard_plain in H by assumption. inversion H; subst. rewrite Nat.sub_diag. split; [|lia].
+  destruct (plain F ex (skipn off' data)); simpl; [rewrite shift_0|]; reflexivity.
+Qed.
+
 Theorem filter_is_plain_scan_prepared : forall F tbl cn ors st,
   Forall prepared tbl ->
-  (forall cs c e, In cs ors -> In c cs -> In e (c_elems c) -> e_rx e < length tbl) ->
+  (forall cs c e, In cs ors -> In c cs -> In e (c_elems c) -> elem_prepared F tbl e) ->
+  (forall cs, In cs ors -> no_error F true tbl cn cs st) ->
   stream_selected F true tbl cn ors st = stream_spec F tbl cn ors st.
 Proof.
-  intros F tbl cn ors st Hp Hidx. apply stream_selected_spec. intros cs c Hcs Hc e He.
-  specialize (Hidx cs c e Hcs Hc He). destruct (nth_error tbl (e_rx e)) as [r|] eqn:Er.
-  - exists r. split; auto. apply find_ok_prepared. rewrite Forall_forall in Hp. apply Hp. eapply nth_error_In; eauto.
-  - apply nth_error_None in Er. lia.
+  intros F tbl cn ors st Hp He Hne. apply stream_selected_spec; auto.
+  intros cs c Hcs Hc e Hin. apply elem_ok_prepared; auto. eapply He; eauto.
 Qed.
